@@ -165,7 +165,13 @@ def core_sites(chk):
         if not isinstance(c.func, ast.Name):
             return False
         vals = assigned_values(gf, c.func.id)
-        return bool(vals) and all(isinstance(v, ast.Subscript) and unparse(v.value) == "self.registry" for v in vals)
+
+        def ok(v):
+            if isinstance(v, ast.Subscript) and unparse(v.value) == "self.registry":
+                return True
+            # looked up by a helper method of the same class
+            return isinstance(v, ast.Call) and any(t.cls is gf.cls for t in ctx.targets(gf, v))
+        return bool(vals) and all(v is not None and ok(v) for v in vals)
     for s in site_of(gf, from_registry, "extractor call"):
         out.append((gf, s, "exception extractor"))
     su = ctx.func("_util", "safeunicode")
